@@ -697,3 +697,10 @@ def r13_4(ctx):
     import rules_io
     rules_io.r08_2(ctx)
     rules_io.r09_1(ctx)
+
+
+@rule("C16", "R16.8", floor=4)
+def r16_8(ctx):
+    """tag substitution leaves the rest of the line alone: everything inject_tags appends is a slice of the line itself or the normalised
+    content of a stored tag (= C12 R12.3d / C14 R14.7)"""
+    r12_3(ctx)
